@@ -133,7 +133,15 @@ impl ByteCompiler<'_> {
                 actions.push(JumpRecordAction::Transfer { index: i as u32 });
             }
 
+            if info.is_try_catch_block() {
+                // Leave the handler range of the try block before cleaning up after the
+                // statements around it.
+                actions.push(JumpRecordAction::Transfer { index: i as u32 });
+            }
+
             if info.iterator_loop() {
+                // Close the iterator behind the loop, outside of the loop's handler range.
+                actions.push(JumpRecordAction::Transfer { index: i as u32 });
                 actions.push(JumpRecordAction::CloseIterator {
                     r#async: info.for_await_of_loop(),
                 });
